@@ -464,6 +464,16 @@ def _used_names_in_file(filename: Path) -> Collection[str]:
             if isinstance(node.value, ast.Name) and node.value.id in imported_names:
                 names.append(node.value.id)
 
+    for node in core.walk(ast_root, ast.ClassDef):
+        if node.bases:
+            # Members defined in a subclass override (and are called through) members of its bases
+            names.extend(
+                member.name
+                for member in core.filter_nodes(
+                    node.body, (ast.FunctionDef, ast.AsyncFunctionDef, ast.ClassDef)
+            ))
+            names.extend(target.id for target in parsing.iter_assignments(node))
+
     for node in core.walk(ast_root, (ast.keyword, ast.MatchClass)):
         # Keyword arguments and keyword patterns name parameters / attributes of the callee
         if isinstance(node, ast.keyword) and node.arg is not None:
